@@ -61,23 +61,26 @@ CLAIMED = {
          "22 theorems, no axioms; TCP, net/rpc, timeouts are runtime; a retried call is delivered again (noted, at-least-once); key / signature strings "
          "assumed encoder outputs; a Peer struct literal with a stray byte is still altered by JSON (control case)",
          "Coq theorems (induction over attempt lists, base64 round trip, ToValidUTF8 model) + model/implementation correspondence + content / order / failure oracles"),
- "C12": ("Decision rule of core.fastForward / Node.fastForward modelled in Coq (CheckBlock over the signature MAP with re-spelled keys, peer-set and frame digests, "
-         "Reset outcome as data, Restore-then-check order, highest-index selection). Proved for the unchanged code: adoption => both digests match and more than "
-         "TrustCount verifying map ENTRIES of members; order-independence of the map iteration; a response refused by the checks leaves the core untouched. "
-         "The property as stated is REFUTED for the unchanged code (one signer counted under several spellings; application restored before the check; Reset "
-         "failing midway) with witnesses replayed on the real core/Node on every run, and PROVED for the repaired rule (distinct known signers, check before "
-         "restore). Tied to the code by a mutation grammar over valid (block, frame, snapshot) triples from honest histories applied to victims in 5 states and to real Nodes",
-         "21 theorems, no axioms; ECDSA outcomes, SHA256 ordinals and the outcome of Hashgraph.Reset are data observed by the harness; the rule implemented by the tree "
-         "(unchanged / each of the three repairs) is detected and reported; open defects are listed in KNOWN_FINDINGS.json",
-         "Coq decision-rule theorems + refutation witnesses + mutation-grammar correspondence (core and node level) + implementation oracle"),
- "C14": ("Proved in Coq that the unchanged decision is blind to everything the node knows (C14_decision_ignores_node_state) and REFUTED that strangers are refused: a "
-         "self-made validator set signed by itself is adopted, and at node level wins over honest answers by its block index (witness replayed on real cores and Nodes "
-         "on every run). For the repaired rule (only signers of a set the node already knows are counted) proved: no response endorsed only by strangers is adopted; "
-         "an adopted response carries more than TrustCount distinct known members' signatures. Forged responses (1/2/4 strangers, with/without honest events and "
-         "peer-set history, respelled single signer, forged index) against victims in 5 states and real Nodes",
-         "7 theorems, no axioms; known sets = configured peers, genesis peers, validators, store peer sets; the repair's residual (a KNOWN validator shrinking the set to "
-         "itself; stale peers.json refusing honest responses after many joins) is stated in FINDINGS.md",
-         "Coq decision-rule theorems + refutation witnesses + forged-response correspondence + implementation oracle"),
+ "C12": ("Decision rule of core.fastForward / Node.fastForward modelled in Coq (CheckBlock over the signature MAP with re-spelled keys, distinct known signers, "
+         "peer-set and frame digests, Reset outcome as data, check-then-Restore order, highest-index selection). Proved for the rule the tree implements (after "
+         "a556752, 52c591c, a41e4c4): adoption => both digests match and more than one third of the DISTINCT members have a verifying signature; body tampering "
+         "refused while the adversary owns at most a third; frame tampering refused; order-independence over the Go map; a response refused by the checks leaves "
+         "core, application and node state untouched; the application is restored only from a checked response. The rule before those commits is kept as "
+         "refuted regression witnesses replayed on every run. Still refuted (open finding F4): a response passing every check whose frame Reset cannot insert. "
+         "Tied to the code by a mutation grammar over valid (block, frame, snapshot) triples from honest histories applied to victims in 5 states and to real Nodes; "
+         "the tree is REQUIRED to implement the repaired rule",
+         "22 theorems, no axioms; ECDSA outcomes, SHA256 ordinals and the outcome of Hashgraph.Reset are data observed by the harness; a lost repair is named by the "
+         "rule diagnostic; open: F4 (needs more than TrustCount known Byzantine signers) and the malformed-signature-map panic pending the C08 repair",
+         "Coq decision-rule theorems + regression witnesses + mutation-grammar correspondence (core and node level) + implementation oracle"),
+ "C14": ("Proved in Coq for the rule the tree implements (a41e4c4): a response whose verifying signatures all come from keys outside every set the node knows "
+         "(configured peers, genesis peers, validators, store peer sets) is never adopted, at core and node level; an adopted response carries more than TrustCount "
+         "distinct KNOWN members' signatures; and the exact liveness condition: an honest response is adopted iff more than TrustCount of its signers are known "
+         "(C14_honest_accept_iff). The rule before a41e4c4 (decision blind to the node's state; self-made validator set adopted; single-peer takeover by block index) is "
+         "kept as refuted regression witnesses replayed on every run. Forged responses (1/2/4 strangers, with/without honest events and peer-set history, respelled "
+         "peer keys, forged index, stale honest signatures + stranger signatures) against victims in 5 states and real Nodes",
+         "10 theorems, no axioms; residual outside the property's quantifier: a KNOWN validator can declare the set {itself} (findings/fastsync/FINDINGS.md F3)",
+         "Coq decision-rule theorems + regression witnesses + forged-response correspondence + implementation oracle"),
+
  "C15": ("Field-level model of events, blocks and frames (nil vs empty slices, nil pointers, maps in insertion order, strings with invalid bytes) with the "
          "JSON codecs as abstract syntax: proved in Coq that ToWire/ReadWireInfo on a store satisfying the admission invariant, encoding/json, MarshalDB/UnmarshalDB "
          "and the frame codec give back an object with the same digest input (hence the same hash under any hash function), the same signature and payload, which "
